@@ -1,5 +1,5 @@
 """C01 - allocation writes never over-commit / break unit constraints."""
-from pv import histrun, monitors
+from pv import conc, histrun, monitors
 from pv.gen.history import HistoryGen, Names
 
 META = {
@@ -10,11 +10,13 @@ META = {
             'write judged against the table dump; distinct = (route, '
             '#consumers, #providers, utilisation class before/after in '
             '{noinv, empty, partial, exact, over}, unit-constraint class)',
-    'floors': {'accepted_multi_consumer_post': 1,
+    'floors': {'concurrent_schedules': 100,
+               'accepted_multi_consumer_post': 1,
                'accepted_reshaper_with_allocs': 1,
                'exact_fit_acceptances': 1,
                'rejected_409_alloc_writes': 1},
-    'assumptions': ['SQLite backend', 'sequential requests',
+    'assumptions': ['SQLite backend', 'sequential histories + committed-state sequences of '
+                    'transaction-level interleavings of request pairs/triples',
                     'capacity comparisons on an IEEE rounding boundary are '
                     'counted, not judged'],
     'shard_timeout': 3000,
@@ -27,13 +29,27 @@ WEIGHTS = {'put_alloc': 22, 'post_allocs': 14, 'reshaper': 9,
            'delete_inv': 2, 'post_inv': 3}
 
 
+CONC = conc.invariant_scenarios(include_tree=False)
+
+
 def plan(tier, seed, scale):
-    return histrun.plan_seeds(tier, seed, scale, 320, 6400, 20 if
+    shards = histrun.plan_seeds(tier, seed, scale, 320, 6400, 20 if
                               tier == 'quick' else 100,
                               extra={'steps': 60 if tier == 'quick' else 80})
+    n = max(1, int(len(CONC) * min(scale, 1)))
+    for sh in conc.plan_scenarios(n, tier, seed, per=max(1, (n + 7) // 8)):
+        sh['conc'] = True
+        shards.append(sh)
+    return shards
+
+
+def conc_shard(spec, res):
+    conc.run_invariants('C01', CONC, spec, res, per_step=monitors.c01)
 
 
 def run_shard(spec, res):
+    if spec.get('conc'):
+        return conc_shard(spec, res)
     svc = histrun.Service()
     try:
         for i in range(spec['first'], spec['first'] + spec['count']):
